@@ -155,3 +155,56 @@ def draw_crash(rng: random.Random, eff: dict, lo: int, hi: int, end_it: int, las
         pert = {"kind": rng.choice(["none", "tmp_subset"])}
     pert["pseed"] = rng.randint(0, 10**6)
     return {"seam": seam, "phase": phase, "perturb": pert}
+
+
+def draw_shipped_problem(rng: random.Random) -> dict:
+    """One of the four shipped problems at a small seeded parameterisation (Hydra-configured;
+    Mirjalili carries tuple-valued parameters that have to survive the YAML round trip)."""
+    k = rng.choice(["forest", "de_moor", "hendrix", "mirjalili"])
+    r2 = lambda lo, hi: round(rng.uniform(lo, hi), 2)  # noqa: E731
+    if k == "forest":
+        return {"kind": k, "params": {"S": rng.randint(3, 9), "r1": r2(2, 6), "r2": r2(1, 3), "p": r2(0.02, 0.4)}}
+    if k == "de_moor":
+        m = rng.choice([2, 2, 3])
+        return {
+            "kind": k,
+            "params": {
+                "max_demand": rng.randint(3, 6),
+                "demand_gamma_mean": r2(1.0, 3.0),
+                "demand_gamma_cov": r2(0.3, 0.8),
+                "max_useful_life": m,
+                "lead_time": rng.choice([1, 2]) if m == 2 else 1,
+                "max_order_quantity": rng.randint(2, 3),
+                "variable_order_cost": r2(1, 4),
+                "shortage_cost": r2(3, 8),
+                "wastage_cost": r2(3, 9),
+                "holding_cost": r2(0.5, 2),
+                "issue_policy": rng.choice(["fifo", "lifo"]),
+            },
+        }
+    if k == "hendrix":
+        return {
+            "kind": k,
+            "params": {
+                "max_useful_life": 2,
+                "demand_poisson_mean_a": r2(0.8, 2.0),
+                "demand_poisson_mean_b": r2(0.8, 2.0),
+                "substitution_probability": r2(0.0, 1.0),
+                "max_order_quantity_a": 2,
+                "max_order_quantity_b": 2,
+            },
+        }
+    m = rng.choice([2, 3])
+    return {
+        "kind": k,
+        "params": {
+            "max_demand": rng.randint(3, 4),
+            "weekday_demand_negbin_n": [r2(2.0, 11.0) for _ in range(7)],
+            "weekday_demand_negbin_delta": [r2(3.0, 7.0) for _ in range(7)],
+            "max_useful_life": m,
+            "useful_life_at_arrival_distribution_c_0": [r2(0.2, 1.2) for _ in range(m - 1)],
+            "useful_life_at_arrival_distribution_c_1": [r2(-0.1, 0.2) for _ in range(m - 1)],
+            "max_order_quantity": rng.randint(2, 3),
+            "fixed_order_cost": r2(5, 12),
+        },
+    }
